@@ -2,37 +2,74 @@
 (***************************************************************************)
 (* Implementation-shaped model of the page search of ov_pcm_seek_page      *)
 (* (lib/vorbisfile.c): the bisection with its guessed probe position, the  *)
-(* read-forward loop, the back-up step when a probe lands in the last page *)
-(* and the hand-over to the "target is on the first page" special case.    *)
+(* read-forward loop, the back-up step when a probe ran into the end of    *)
+(* the search range, the hand-over to the "target is on the first page"    *)
+(* special case, and the final seek to the page that was found.            *)
 (*                                                                         *)
-(* A link is a sequence of pages PG[i] = [off, len, ours, gp]: byte offset *)
-(* and length, whether the page belongs to the link's Vorbis stream (a     *)
-(* multiplexed foreign stream otherwise) and its granule position (-1 =    *)
-(* no packet ends on it).  Pages are contiguous (no garbage).              *)
-(* Search(...) returns [best, og, begin, steps, probes]:                   *)
-(*   best  = byte offset of the page the code settles on (-1 = none),      *)
-(*   og    = index of the page read last (0 = none),                       *)
-(*   probes = the sequence of seek offsets issued (what the seek callback  *)
-(*            of the application sees).                                    *)
+(* A physical stream is a sequence of pages PG[i] = [off, len, ours, gp]:  *)
+(* byte offset and length, whether the page belongs to the Vorbis stream   *)
+(* of the link that is searched (a multiplexed foreign stream or another   *)
+(* link otherwise) and its granule position (-1: no packet ends on it).    *)
+(* Pages are contiguous (no garbage between them).                         *)
+(*                                                                         *)
+(* K = [chunk, near, read, backup, handover] are the constants and the     *)
+(* two rules that exist in a pinned and a repaired form:                   *)
+(*   chunk    CHUNKSIZE (65536): the probe step;                           *)
+(*   near     44100: closer than this, read forward instead of bisecting;  *)
+(*   read     READSIZE (2048): the unit in which data enters the sync      *)
+(*            buffer (decides what "only what is buffered" can see);       *)
+(*   backup   "plus1": a back-up step that reaches begin stops at begin+1  *)
+(*            (pinned tree) | "begin": it reads from begin (repaired);     *)
+(*   handover "lastread": the first-page case submits the page read last   *)
+(*            (pinned tree) | "refetch": it fetches the first page of the  *)
+(*            link's stream again (repaired).                              *)
+(* Search(...) returns the final state of the loops; Submit(...) what the  *)
+(* call hands to the stream layer: [sub, probes] with sub = index of the   *)
+(* page submitted (0: the call fails) and probes = the offsets of the      *)
+(* callback seeks, in order (what the application's seek callback sees).   *)
 (***************************************************************************)
 EXTENDS Integers, Sequences, FiniteSets
 
 \* first page starting at or after byte offset o (0 = none)
 PageAt(PG, o) == LET c == { i \in 1..Len(PG) : PG[i].off >= o } IN IF c = {} THEN 0 ELSE CHOOSE i \in c : \A j \in c : PG[i].off <= PG[j].off
-\* _get_next_page(boundary): [r, off] with r = page index, 0 = OV_FALSE / OV_EOF
-GetNext(PG, o, boundary) ==
-  LET q == PageAt(PG, o) IN
-  IF boundary = 0 THEN [r |-> 0, off |-> o]                                   \* only what is buffered: nothing after a seek
-  ELSE IF q = 0 THEN [r |-> 0, off |-> o]                                     \* end of data
+DataEnd(PG) == IF PG = <<>> THEN 0 ELSE PG[Len(PG)].off + PG[Len(PG)].len
+CeilDiv(a, b) == (a + b - 1) \div b
+\* how far the sync buffer reaches once everything up to o has been consumed: data arrives in units of `read` counted from the last seek
+BufEnd(PG, st, o, K) == LET e == st.base + K.read * CeilDiv(o - st.base, K.read) IN IF e > DataEnd(PG) THEN DataEnd(PG) ELSE e
+
+\* _seek_helper: nothing happens (and the sync buffer survives) when the position is already there
+SeekTo(st, b) == IF b = st.off THEN st ELSE [st EXCEPT !.off = b, !.base = b, !.probes = Append(st.probes, b)]
+
+\* _get_next_page(boundary): [r, off] with r = page index (0: OV_FALSE / OV_EOF) and off = vf->offset afterwards
+GetNext(PG, st, boundary, K) ==
+  LET o == st.off  q == PageAt(PG, o) IN
+  IF q = 0 THEN [r |-> 0, off |-> IF boundary = 0 THEN o ELSE DataEnd(PG)]
+  ELSE IF boundary = 0
+       THEN IF PG[q].off + PG[q].len <= BufEnd(PG, st, o, K) THEN [r |-> q, off |-> PG[q].off + PG[q].len] ELSE [r |-> 0, off |-> o]   \* only what is buffered
   ELSE IF boundary > 0 /\ PG[q].off >= o + boundary THEN [r |-> 0, off |-> o + boundary]
   ELSE [r |-> q, off |-> PG[q].off + PG[q].len]
 
+\* floor(a * b / c) for 0 <= a, 0 <= b, 0 < c without forming a * b (TLC integers are 32 bits wide; the code computes in double precision,
+\* whose rounding cannot change the integer part for operands of the sizes that occur here: quotient < 2^31, c < 2^31)
+RECURSIVE MulDivQR(_, _, _)
+MulDivQR(a, b, c) == IF a = 0 THEN [q |-> 0, r |-> 0]
+                     ELSE LET h == MulDivQR(a \div 2, b, c)
+                              r1 == 2 * h.r + (IF a % 2 = 1 THEN b % c ELSE 0)
+                              q1 == 2 * h.q + (IF a % 2 = 1 THEN b \div c ELSE 0)
+                          IN [q |-> q1 + r1 \div c, r |-> r1 % c]
+MulDiv(a, b, c) == MulDivQR(a, b, c).q
 \* the guessed probe: begin + (target-begintime)*(end-begin)/(endtime-begintime) - CHUNK, not before begin+CHUNK (else begin)
 Guess(begin, end, begintime, endtime, target, CHUNK) ==
   IF end - begin < CHUNK THEN begin
-  ELSE LET g == begin + ((target - begintime) * (end - begin)) \div (endtime - begintime) - CHUNK IN IF g < begin + CHUNK THEN begin ELSE g
+  ELSE LET g == begin + MulDiv(target - begintime, end - begin, endtime - begintime) - CHUNK IN IF g < begin + CHUNK THEN begin ELSE g
 
-\* state of the two nested loops: st = [begin, end, begintime, endtime, bisect, off, best, og, inner, steps, probes]
+\* "back up a bit": one probe step towards begin.  The pinned tree stopped at begin + 1 ("don't repeat a read we've already performed"),
+\* which skips the page AT begin although no read from begin was ever made on this path; "begin" is the repaired rule.
+BackUp(st, K) == LET b1 == st.bisect - K.chunk IN
+                 IF K.backup = "plus1" THEN (IF b1 <= st.begin THEN st.begin + 1 ELSE b1)
+                 ELSE (IF b1 <= st.begin + 1 THEN st.begin ELSE b1)
+
+\* state of the two nested loops: st = [begin, end, begintime, endtime, bisect, off, base, best, og, inner, steps, probes]
 \* inner = TRUE while inside the read loop of the current bisection step
 RECURSIVE Run(_, _, _, _, _)
 Run(PG, st, target, K, fuel) ==
@@ -40,13 +77,13 @@ Run(PG, st, target, K, fuel) ==
   ELSE IF ~(st.begin < st.end) THEN st
   ELSE IF ~st.inner
   THEN LET b == Guess(st.begin, st.end, st.begintime, st.endtime, target, K.chunk) IN
-       Run(PG, [st EXCEPT !.bisect = b, !.off = b, !.inner = TRUE, !.probes = Append(st.probes, b), !.steps = st.steps + 1], target, K, fuel - 1)
-  ELSE LET g == GetNext(PG, st.off, st.end - st.off) IN
+       Run(PG, [SeekTo(st, b) EXCEPT !.bisect = b, !.inner = TRUE, !.steps = st.steps + 1], target, K, fuel - 1)
+  ELSE LET g == GetNext(PG, st, st.end - st.off, K) IN
        IF g.r = 0
        THEN IF st.bisect <= st.begin + 1 THEN Run(PG, [st EXCEPT !.end = st.begin, !.off = g.off], target, K, fuel - 1)
             ELSE IF st.bisect = 0 THEN [st EXCEPT !.steps = -2]                 \* seek_error
-            ELSE LET b1 == st.bisect - K.chunk  b2 == IF b1 <= st.begin THEN st.begin + 1 ELSE b1 IN
-                 Run(PG, [st EXCEPT !.bisect = b2, !.off = b2, !.probes = Append(st.probes, b2), !.steps = st.steps + 1], target, K, fuel - 1)
+            ELSE LET b2 == BackUp(st, K) IN
+                 Run(PG, [SeekTo([st EXCEPT !.off = g.off], b2) EXCEPT !.bisect = b2, !.steps = st.steps + 1], target, K, fuel - 1)
        ELSE LET p == PG[g.r]  s1 == [st EXCEPT !.og = g.r, !.off = g.off, !.steps = st.steps + 1] IN
             IF ~p.ours \/ p.gp = -1 THEN Run(PG, s1, target, K, fuel - 1)
             ELSE IF p.gp < target
@@ -55,21 +92,42 @@ Run(PG, st, target, K, fuel) ==
                  ELSE Run(PG, [s2 EXCEPT !.bisect = g.off], target, K, fuel - 1)                               \* close: read forward
             ELSE IF st.bisect <= st.begin + 1 THEN Run(PG, [s1 EXCEPT !.end = st.begin], target, K, fuel - 1)
             ELSE IF st.end = g.off
-                 THEN LET b1 == st.bisect - K.chunk  b2 == IF b1 <= st.begin THEN st.begin + 1 ELSE b1 IN
-                      Run(PG, [s1 EXCEPT !.end = p.off, !.bisect = b2, !.off = b2, !.probes = Append(s1.probes, b2)], target, K, fuel - 1)
+                 THEN LET b2 == BackUp(st, K) IN
+                      Run(PG, [SeekTo([s1 EXCEPT !.end = p.off], b2) EXCEPT !.bisect = b2], target, K, fuel - 1)
                  ELSE Run(PG, [s1 EXCEPT !.end = st.bisect, !.endtime = p.gp, !.inner = FALSE], target, K, fuel - 1)
 
-Search(PG, dataoff, endoff, begintime, endtime, target, K) ==
-  LET st0 == [begin |-> dataoff, end |-> endoff, begintime |-> begintime, endtime |-> endtime, bisect |-> dataoff, off |-> dataoff, best |-> -1, og |-> 0,
+Search(PG, dataoff, endoff, begintime, endtime, target, K, off0) ==
+  LET st0 == [begin |-> dataoff, end |-> endoff, begintime |-> begintime, endtime |-> endtime, bisect |-> dataoff, off |-> off0, base |-> off0, best |-> -1, og |-> 0,
               inner |-> FALSE, steps |-> 0, probes |-> <<>>]
       \* "if we have only one page, there will be no bisection.  Grab the page here"
-      st1 == IF dataoff = endoff THEN LET g == GetNext(PG, dataoff, 1) IN [st0 EXCEPT !.og = g.r, !.off = g.off, !.probes = <<dataoff>>] ELSE st0
+      st1 == IF dataoff = endoff THEN LET s == SeekTo(st0, dataoff)  g == GetNext(PG, s, 1, K) IN [s EXCEPT !.og = g.r, !.off = g.off] ELSE st0
   IN Run(PG, st1, target, K, 400)
 
 \* what the search is FOR: the last page of ours carrying a granule position below the target (-1: the target is on the first page)
-Wanted(PG, dataoff, target) ==
-  LET c == { i \in 1..Len(PG) : PG[i].off >= dataoff /\ PG[i].ours /\ PG[i].gp # -1 /\ PG[i].gp < target } IN
+Wanted(PG, dataoff, endoff, target) ==
+  LET c == { i \in 1..Len(PG) : PG[i].off >= dataoff /\ PG[i].off < endoff /\ PG[i].ours /\ PG[i].gp # -1 /\ PG[i].gp < target } IN
   IF c = {} THEN -1 ELSE PG[CHOOSE i \in c : \A j \in c : PG[j].off <= PG[i].off].off
-\* the hand-over to the first-page special case succeeds only if a page was read, the range start is untouched and that page is ours
-FirstPageCaseOK(PG, r, dataoff) == r.og # 0 /\ r.begin = dataoff /\ PG[r.og].ours
+FirstOurs(PG, dataoff, endoff) ==
+  LET c == { i \in 1..Len(PG) : PG[i].off >= dataoff /\ PG[i].off < endoff /\ PG[i].ours } IN IF c = {} THEN 0 ELSE CHOOSE i \in c : \A j \in c : PG[i].off <= PG[j].off
+\* the page the stream layer must be given for the decoder to come out at the right place
+RightPage(PG, dataoff, endoff, target) == LET w == Wanted(PG, dataoff, endoff, target) IN IF w = -1 THEN FirstOurs(PG, dataoff, endoff) ELSE PageAt(PG, w)
+
+\* fetch the first page of ours at or after the current offset, not beyond linkend
+RECURSIVE Refetch(_, _, _, _, _)
+Refetch(PG, st, linkend, K, fuel) ==
+  IF fuel = 0 \/ st.off >= linkend THEN [sub |-> 0, st |-> st]
+  ELSE LET g == GetNext(PG, st, linkend - st.off, K) IN
+       IF g.r = 0 THEN [sub |-> 0, st |-> st]
+       ELSE IF PG[g.r].ours THEN [sub |-> g.r, st |-> [st EXCEPT !.off = g.off]]
+       ELSE Refetch(PG, [st EXCEPT !.off = g.off], linkend, K, fuel - 1)
+
+\* everything up to ogg_stream_pagein: [sub, probes, steps]
+Submit(PG, dataoff, endoff, begintime, endtime, target, K, off0) ==
+  LET r == Search(PG, dataoff, endoff, begintime, endtime, target, K, off0) IN
+  IF r.steps < 0 THEN [sub |-> 0, probes |-> r.probes, steps |-> r.steps]
+  ELSE IF r.best = -1
+  THEN IF ~(r.og # 0 /\ r.begin = dataoff) THEN [sub |-> 0, probes |-> r.probes, steps |-> r.steps]
+       ELSE IF K.handover = "lastread" THEN [sub |-> IF PG[r.og].ours THEN r.og ELSE 0, probes |-> r.probes, steps |-> r.steps]
+       ELSE LET f == Refetch(PG, SeekTo(r, dataoff), endoff, K, Len(PG) + 1) IN [sub |-> f.sub, probes |-> f.st.probes, steps |-> r.steps]
+  ELSE LET s == SeekTo(r, r.best)  g == GetNext(PG, s, -1, K) IN [sub |-> g.r, probes |-> s.probes, steps |-> r.steps]
 =============================================================================
